@@ -156,6 +156,10 @@ pub struct ChainOpt {
     pub ver10: bool,
     /// this many other header lines precede the credentials on the original request
     pub fillers: usize,
+    /// the original URI carries credentials (user:secret@host) and the request has no Authorization / Cookie header of its own
+    pub userinfo: bool,
+    /// a body-method original carries Transfer-Encoding: chunked next to its Content-Length
+    pub both_framing: bool,
 }
 
 const ORIG_AUTH: [&[u8]; 2] = [b"Basic b3JpZzpwdw==", b"Bearer second-line"];
@@ -171,20 +175,33 @@ pub fn run_chain(t: &mut Tracer, orig: &Value, method: &str, same_host: bool, ho
 pub fn run_chain_opt(t: &mut Tracer, orig: &Value, method: &str, same_host: bool, hops: &[Hop], note: &str, opt: ChainOpt) {
     let despite = opt.despite;
     let body_m = matches!(method, "POST" | "PUT" | "PATCH");
-    let mut b = Request::builder().method(Method::from_bytes(method.as_bytes()).unwrap()).uri(uri_text(orig));
+    let mut utext = uri_text(orig);
+    if opt.userinfo {
+        utext = utext.replacen("://", "://user:s3cret@", 1);
+        t.class("hop:credentials-in-the-uri");
+    }
+    let mut b = Request::builder().method(Method::from_bytes(method.as_bytes()).unwrap()).uri(utext);
     for k in 0..opt.fillers {
         b = b.header(format!("x-fill-{}", k), "v");
     }
     if opt.fillers > 0 {
         t.class("hop:many-original-headers");
     }
-    b = b.header("authorization", "Basic b3JpZzpwdw==").header("cookie", "session=orig").header("x-keep", "1");
-    if orig["q"] != "-" || hops.len() % 2 == 0 {
+    if opt.userinfo {
+        b = b.header("x-keep", "1");
+    } else {
+        b = b.header("authorization", "Basic b3JpZzpwdw==").header("cookie", "session=orig").header("x-keep", "1");
+    }
+    if !opt.userinfo && (orig["q"] != "-" || hops.len() % 2 == 0) {
         // the same credentials header on more than one line
         b = b.header("cookie", "second=line").header("x-between", "1").header("authorization", "Bearer second-line").header("cookie", "third=line");
     }
     if body_m {
         b = b.header("content-length", "0");
+        if opt.both_framing {
+            b = b.header("transfer-encoding", "chunked");
+            t.class("hop:original-with-both-framing-headers");
+        }
         if hops.len() % 2 == 1 {
             // what an ordinary form post carries
             b = b.header("content-type", "application/x-www-form-urlencoded").header("content-language", "en").header("content-encoding", "identity").header("content-location", "/form");
@@ -481,7 +498,10 @@ pub fn c13_14(o: &Opts, t: &mut Tracer, own_host: bool) -> Value {
         }
         let m = methods[rng.gen_range(0..9)];
         t.sig(format!("rnd/{}/{}/{}", m, nh, i % 9 == 0));
-        let opt = ChainOpt { despite: rng.gen_bool(0.15), despite_hops: rng.gen_bool(0.15), readd: rng.gen_bool(0.25), interim: rng.gen_bool(0.15), answer_in_await: rng.gen_bool(0.3), explicit_host: own_host && rng.gen_bool(0.2), ver10: rng.gen_bool(0.2), fillers: [0usize, 0, 0, 3, 70][rng.gen_range(0..5)] };
+        let opt = ChainOpt { despite: rng.gen_bool(0.15), despite_hops: rng.gen_bool(0.15), readd: rng.gen_bool(0.25), interim: rng.gen_bool(0.15), answer_in_await: rng.gen_bool(0.3), explicit_host: own_host && rng.gen_bool(0.2), ver10: rng.gen_bool(0.2), fillers: [0usize, 0, 0, 3, 70][rng.gen_range(0..5)],
+                             userinfo: i % 10 == 7, both_framing: false };
+        // (both framing headers on the original: the redirected request inherits the chunked coding and can only be sent with a forced body)
+        let opt = ChainOpt { both_framing: opt.despite_hops && i % 2 == 0, ..opt };
         run_chain_opt(t, &orig, m, rng.gen_bool(0.6), &hops, "random-chain", opt);
     }
     // directed: leave and return, scheme downgrade on the same host, same host different port
@@ -500,7 +520,8 @@ pub fn c13_14(o: &Opts, t: &mut Tracer, own_host: bool) -> Value {
             run_chain(t, &a("https", "127.0.0.1", 0), "GET", same, &[h(abs("https", "10.1.2.3", 0)), h(absp.clone()), h(abs("https", "127.0.0.1", 0))], "ip-literal-leave-and-return");
             run_chain(t, &a("http", "[::1]", 8080), "GET", same, &[h(abs("http", "[::2]", 8080)), h(abs("http", "127.0.0.1", 8080)), h(abs("http", "[::1]", 8080))], "ipv6-literal-leave-and-return");
             for opt in [ChainOpt { readd: true, ..Default::default() }, ChainOpt { despite_hops: true, ..Default::default() }, ChainOpt { interim: true, ..Default::default() },
-                        ChainOpt { readd: true, despite_hops: true, interim: true, despite: true, answer_in_await: false, explicit_host: false, ver10: false, fillers: 0 }, ChainOpt { answer_in_await: true, ..Default::default() },
+                        ChainOpt { readd: true, despite_hops: true, interim: true, despite: true, ..Default::default() },
+                        ChainOpt { userinfo: true, ..Default::default() }, ChainOpt { userinfo: true, readd: true, ..Default::default() }, ChainOpt { both_framing: true, despite_hops: true, ..Default::default() }, ChainOpt { answer_in_await: true, ..Default::default() },
                         ChainOpt { explicit_host: own_host, ..Default::default() }, ChainOpt { ver10: true, despite_hops: true, ..Default::default() }] {
                 run_chain_opt(t, &a("https", "a.test", 0), "GET", same, &[h(absp.clone()), h(abs("https", "b.test", 0)), h(rel.clone()), h(abs("https", "a.test", 0))], "caller-options", opt);
                 run_chain_opt(t, &a("http", "a.test", 0), "POST", same, &[h(absp.clone()), h(rel.clone())], "caller-options", opt);
@@ -527,7 +548,9 @@ pub fn c15(o: &Opts, t: &mut Tracer) -> Value {
             for same in [false, true] {
                 for with_body in [false, true] {
                     let r = match (st as usize + n) % 7 {
-                        0 | 3 => mk_ref("abs", "https", "b.test", 0, &["t"], "-"),
+                        0 => mk_ref("abs", "https", "b.test", 0, &["t"], "-"),
+                        // a target the client may not be able to talk to is the caller's business: the table says "followed"
+                        3 => mk_ref("abs", ["ftp", "ws", "myapp", "https"][(n / 7) % 4], "b.test", 0, &["t"], "-"),
                         // back to the very URI just requested: still a redirect to follow
                         1 => mk_ref("abspath", "", "", 0, &["x", "y"], "-"),
                         4 => mk_ref("relpath", "", "", 0, &["y"], "-"),
@@ -538,7 +561,7 @@ pub fn c15(o: &Opts, t: &mut Tracer) -> Value {
                         t.class("hop:to-the-same-uri");
                     }
                     let despite = !matches!(m, "POST" | "PUT" | "PATCH") && (st as usize + n) % 4 == 1;
-                    let opt = ChainOpt { despite, despite_hops: (st as usize + n) % 5 == 2, readd: (st as usize + n) % 7 == 3, interim: (st as usize + n / 4) % 3 == 1, answer_in_await: (st as usize + n / 2) % 2 == 0, explicit_host: false, ver10: (st as usize + n) % 11 == 5, fillers: 0 };
+                    let opt = ChainOpt { despite, despite_hops: (st as usize + n) % 5 == 2, readd: (st as usize + n) % 7 == 3, interim: (st as usize + n / 4) % 3 == 1, answer_in_await: (st as usize + n / 2) % 2 == 0, explicit_host: false, ver10: (st as usize + n) % 11 == 5, fillers: 0, userinfo: (st as usize + n) % 13 == 6, both_framing: false };
                     let mut hops = vec![Hop { status: st, r, bad: None, frag: false, decoys: 0, with_body }];
                     if (st as usize + n) % 4 == 2 {
                         // the table applies hop by hop: the method of a later hop is decided from the method the previous hop produced
